@@ -718,9 +718,54 @@ fn twin_tz(r: &mut Rng) {
 }
 
 
+// a zone with one fold and one gap (offset +02:00 before T, +01:00 from T to G, +02:00 from G on) to exercise to_datetime_with_timezone
+#[derive(Clone, Copy, Debug)]
+struct FoldTz;
+const FOLD_T: i64 = 1_635_642_000;     // 2021-10-31T01:00:00Z
+const GAP_T: i64 = 1_648_342_800;      // 2022-03-27T01:00:00Z
+impl FoldTz { fn off_at(t: i64) -> i32 { if t < FOLD_T || t >= GAP_T { 7200 } else { 3600 } } }
+impl chrono::TimeZone for FoldTz {
+    type Offset = FixedOffset;
+    fn from_offset(_: &FixedOffset) -> Self { FoldTz }
+    fn offset_from_local_date(&self, _: &NaiveDate) -> chrono::LocalResult<FixedOffset> { chrono::LocalResult::None }
+    fn offset_from_local_datetime(&self, l: &NaiveDateTime) -> chrono::LocalResult<FixedOffset> {
+        let w = l.and_utc().timestamp();
+        let mut c: Vec<i32> = [7200, 3600].iter().copied().filter(|&o| FoldTz::off_at(w - o as i64) == o).collect();
+        c.sort_by_key(|&o| w - o as i64);
+        match c.len() { 0 => chrono::LocalResult::None, 1 => chrono::LocalResult::Single(FixedOffset::east_opt(c[0]).unwrap()), _ => chrono::LocalResult::Ambiguous(FixedOffset::east_opt(c[0]).unwrap(), FixedOffset::east_opt(c[1]).unwrap()) }
+    }
+    fn offset_from_utc_date(&self, _: &NaiveDate) -> FixedOffset { FixedOffset::east_opt(0).unwrap() }
+    fn offset_from_utc_datetime(&self, u: &NaiveDateTime) -> FixedOffset { FixedOffset::east_opt(FoldTz::off_at(u.and_utc().timestamp())).unwrap() }
+}
+fn twin_parsed_zone() {
+    use chrono::format::Parsed;
+    for t in [FOLD_T - 7200, FOLD_T - 3600, FOLD_T - 1800, FOLD_T - 1, FOLD_T, FOLD_T + 1, FOLD_T + 1800, FOLD_T + 3599, FOLD_T + 3600, FOLD_T + 7200, GAP_T - 1, GAP_T, GAP_T + 1, 0, 1_700_000_000] {
+        let o = FoldTz::off_at(t);
+        let w = DateTime::from_timestamp(t + o as i64, 0).unwrap().naive_utc();
+        for (with_off, with_ts) in [(true, false), (true, true), (false, true), (false, false)] {
+            let mut p = Parsed::new();
+            p.set_year(w.year() as i64).ok(); p.set_month(w.month() as i64).ok(); p.set_day(w.day() as i64).ok();
+            p.set_hour(w.hour() as i64).ok(); p.set_minute(w.minute() as i64).ok(); p.set_second(w.second() as i64).ok();
+            if with_off { p.set_offset(o as i64).ok(); }
+            if with_ts { p.set_timestamp(t).ok(); }
+            let got = guard(|| p.to_datetime_with_timezone(&FoldTz).ok().map(|d| (d.timestamp(), d.offset().local_minus_utc())));
+            // how many instants read as this wall clock?
+            let cands: Vec<i64> = [7200i64, 3600].iter().map(|&oo| w.and_utc().timestamp() - oo).filter(|&c| FoldTz::off_at(c) as i64 == w.and_utc().timestamp() - c).collect();
+            let want = if with_off || with_ts || cands.len() == 1 { Some((t, o)) } else { None };      // without offset and timestamp an ambiguous wall clock is not enough
+            chk!("Parsed::to_datetime_with_timezone", (t, with_off, with_ts), got, Ok(want));
+            // a supplied offset that contradicts the zone is impossible
+            if with_off { let mut q = p.clone(); q.offset = Some(if o == 7200 { 3600 } else { 7200 });
+                let other_ok = cands.len() == 2 && !with_ts;
+                let got = guard(|| q.to_datetime_with_timezone(&FoldTz).ok().map(|d| d.offset().local_minus_utc()));
+                chk!("Parsed::to_datetime_with_timezone (other offset)", (t, with_ts), got, Ok(if other_ok { q.offset } else { None })); }
+        }
+    }
+}
+
 // ---- field resolution (C14): bounded random search over field sets derived from real values, with drops and perturbations ----
 fn twin_parsed(r: &mut Rng) {
     use chrono::format::Parsed;
+    twin_parsed_zone();
     let xs = ndt_grid(r);
     let offs = [0i32, 3600, -3600, 19800, -12600, 86399, -86399, 1];
     for (i, &x) in xs.iter().enumerate() { for rep in 0..6u64 {
